@@ -31,6 +31,8 @@ var c15Decoys = []core.Tree{
 		"crs/regex-assembly/123456.ra.tmp": "precious\n", "crs/regex-assembly/.123456.ra.swp": "precious\n", "crs/tests/regression/tests/REQUEST-123-TEST/123456.yaml.tmp": "precious\n", "crs/tests/regression/tests/REQUEST-123-TEST/123456.yaml.new": "precious\n"},
 	// a second file that the rules-file glob finds, sorting before the real one and holding the addressed rules
 	{"crs/rules/AAA-123-DISABLED.conf.off": rulesFile(ruleSpec{ID: "123456", Regex: "DECOY"}, ruleSpec{ID: "123457", Regex: "DECOY2", Chain: []string{"DECOYCHAIN"}})},
+	// assembly-like files in the root but not below regex-assembly
+	{"crs/rules/scratch.ra": "  s\n", "crs/util/notes/draft.ra": " d\n\n", "crs/123456.ra": "  top\n", "crs/tests/regression/tests/REQUEST-123-TEST/123456.ra": " t\n", "crs/regex-assembly.ra": " r\n"},
 	{"crs/regex-assembly/.gitkeep": "", "crs/regex-assembly/include/.gitkeep": "", "crs/rules/.gitkeep": "", "crs/tests/regression/tests/.gitkeep": "", "crs/tests/regression/tests/REQUEST-123-TEST/.gitkeep": "", "crs/.editorconfig": "root = true\n"},
 }
 
@@ -77,6 +79,8 @@ func c15Commands() []c15Cmd {
 		{Name: "generate missing", Args: []string{"regex", "generate", "123460"}, Inspect: true},
 		{Name: "compare missing", Args: []string{"regex", "compare", "123460"}, Inspect: true},
 		{Name: "update missing", Args: []string{"regex", "update", "123460"}, Inspect: true},
+		{Name: "renumber --check untidy end", Args: []string{"util", "renumber-tests", "--check", "123461"}, Inspect: true},
+		{Name: "renumber --check trailing blank lines github", Args: []string{"-o", "github", "util", "renumber-tests", "-c", "123462"}, Inspect: true},
 		{Name: "renumber --check missing", Args: []string{"util", "renumber-tests", "-c", "123460"}, Inspect: true},
 		{Name: "renumber missing", Args: []string{"util", "renumber-tests", "123460"}, Inspect: true},
 		{Name: "version", Args: []string{"version"}, Inspect: true},
@@ -143,6 +147,9 @@ func c15Sandbox(mask int) core.Tree {
 	// files the linter complains about: the complaint must not turn a check into a rewrite
 	t["crs/regex-assembly/include/upper.ra"] = "##!+ i\n   [Bb]lah\n\n\n"
 	t["crs/regex-assembly/include/unbalanced.ra"] = "##!> assemble\n a\n"
+	// test files that are numbered correctly but end untidily: a check has nothing to complain about and nothing to write
+	t["crs/tests/regression/tests/REQUEST-123-TEST/123461.yaml"] = "tests:\n  - test_id: 1\n  - test_id: 2"
+	t["crs/tests/regression/tests/REQUEST-123-TEST/123462.yaml"] = "tests:\n  - test_id: 1\n\n  \n\n"
 	for i, d := range c15Decoys {
 		if mask&(1<<i) != 0 {
 			for k, v := range d {
